@@ -10,6 +10,8 @@ import VsgModel.Engine.Outcome
 import VsgModel.Engine.RuleRun
 import VsgModel.Lex.Create
 import VsgProofs.Properties.C04
+import VsgProofs.Lemmas.BaseCaseTok
+import VsgModel.Base.CaseTables
 -- >>> WP1b layer P
 import VsgProofs.Lemmas.ProgErr
 import VsgProofs.Lemmas.ProgLink
@@ -243,3 +245,73 @@ example : (match ((run { C04.demoSys with funs := #[plusOne] } 6).call 0 [.none]
 
 end Vsgm.C19
 -- <<< WP1b layer P
+
+/-! ### BEGIN wp5b (case family: the analysis cannot raise a TypeError any more) -/
+namespace Vsgm.C19
+open Vsgm Vsgm.Base Vsgm.Base.Case
+
+/-- **`token_case` analysis (243 rules) after the repair of `check_for_prefix_and_suffix_exceptions`**: for every
+    interpreter table, option set (style, prefix / suffix / whole-word exception lists, overlapping or not) and
+    region, the analysis returns — or raises the KeyError of an unknown `case` option, the ValueError / IndexError of
+    `check_for_exception`, or the IndexError of an empty region.  The TypeError of a prefix and a suffix
+    exception that overlap in a name (`prefix_exceptions: [RD]`, `suffix_exceptions: [D]`, name `rd`) is gone. -/
+theorem bfull_case_analysis_errors (E : Case.Env) (p : Params) (l : List Tok) (e : PyErr)
+    (h : TokenCase.analyzeToi E p l = .error e) :
+    (∃ n, e = .keyError n) ∨ e = .valueError ∨ e = .indexError := by
+  unfold TokenCase.analyzeToi at h
+  cases hg : pyGet l 0 with
+  | error e' =>
+    simp only [hg, bind, Except.bind] at h
+    cases h
+    unfold pyGet at hg
+    split at hg
+    · split at hg
+      · cases hg
+      · cases hg; exact Or.inr (Or.inr rfl)
+    · cases hg; exact Or.inr (Or.inr rfl)
+  | ok t =>
+    simp only [hg, bind, Except.bind] at h
+    exact checkForCaseViolation_errors E p _ _ t.val 0 e h
+
+/-- … and with a known `case` option and a name that is not a whole-word exception it returns -/
+theorem bfull_case_analysis_total (E : Case.Env) (p : Params) (cp cs : Bool) (v : Str) (idx : Int)
+    (hst : ∀ n, p.style ≠ .unknown n) (hx : p.exceptions.contains v = false) :
+    ∃ o, checkForCaseViolation E p cp cs v idx = .ok o := by
+  cases h : checkForCaseViolation E p cp cs v idx with
+  | ok o => exact ⟨o, rfl⟩
+  | error e =>
+    exfalso
+    unfold checkForCaseViolation at h
+    split at h
+    · cases h
+    · simp only [hx, Bool.false_eq_true, if_false] at h
+      cases hl : lookupCheck E p.style with
+      | error e' =>
+        cases hs : p.style <;> simp [hs, lookupCheck] at hl
+        rename_i n
+        exact hst n hs
+      | ok f =>
+        simp only [hl, bind, Except.bind] at h
+        obtain ⟨o, ho⟩ := dChecker_total E cp cs p v idx f
+        rw [ho] at h; cases h
+
+/-- the inputs of the former finding `rules/case_utils.py:extract_suffix / TypeError` on the model: the prefix is
+    split off, nothing is left for the suffix, the name is reported with the configured prefix -/
+theorem bfull_case_overlap_no_crash :
+    checkForCaseViolation (asciiEnv fun _ _ => false)
+      { name := "port".toList, style := .lower, prefixes := ["RD".toList], suffixes := ["D".toList], exceptions := [] }
+      true true "rd".toList 0 = .ok (some { value := some "RD".toList, index := 0 }) ∧
+    checkForCaseViolation (asciiEnv fun _ _ => false)
+      { name := "signal".toList, style := .lower, prefixes := ["i_".toList], suffixes := ["_i".toList], exceptions := [] }
+      true true "I_I".toList 0 = .ok (some { value := some "i_i".toList, index := 0 }) := by
+  decide +kernel
+
+/-- non-vacuity of `bfull_case_analysis_total`, and the ordinary prefix + suffix case is split as before -/
+example :
+    checkForCaseViolation (asciiEnv fun _ _ => false)
+      { name := "signal".toList, style := .upper, prefixes := ["I_".toList], suffixes := ["_O".toList], exceptions := [] }
+      true true "I_MySig_O".toList 0 = .ok (some { value := some "I_MYSIG_O".toList, index := 0 }) := by
+  decide +kernel
+
+end Vsgm.C19
+/-! ### END wp5b -/
